@@ -88,6 +88,13 @@ Proof. exact last_frame_shows_the_final_set. Qed.
 Print Assumptions C03_answer_no_means_the_last_frame_is_final.
 
 (* non-vacuity: a bar completes, is shown completed twice, the container is done and exits *)
+
+(* whether a finished bar is in the last frame is decided when it finishes: no call that arrives later — a late Abort(true) on a
+   completed bar, say — changes its drop flag *)
+Theorem C03_finished_bar_keeps_its_drop_flag : forall s o, terminal s = true -> rm (fst (bapply s o)) = rm s.
+Proof. exact rm_stable_once_finished. Qed.
+Print Assumptions C03_finished_bar_keeps_its_drop_flag.
+
 Example C03_nonvacuous :
   exists s, run (init_cst false true false)
     [CT_OP; CT_ADD 0 0 0 2 None None false false true 0 false; HM_PUSH 0 true 0 false 0;
